@@ -46,13 +46,15 @@ func NewTCPGroupCtl(portManager *ports.Manager) *TCPGroupCtl {
 func (tgc *TCPGroupCtl) Listen(proxyName string, group string, groupKey string,
 	addr string, port int,
 ) (l net.Listener, realPort int, err error) {
+	// Hold the controller lock until the listener has joined the group, so that the group
+	// can't be emptied, closed and removed by a concurrent CloseListener in between.
 	tgc.mu.Lock()
+	defer tgc.mu.Unlock()
 	tcpGroup, ok := tgc.groups[group]
 	if !ok {
 		tcpGroup = NewTCPGroup(tgc)
 		tgc.groups[group] = tcpGroup
 	}
-	tgc.mu.Unlock()
 
 	return tcpGroup.Listen(proxyName, group, groupKey, addr, port)
 }
@@ -162,6 +164,9 @@ func (tg *TCPGroup) Accept() <-chan net.Conn {
 
 // CloseListener remove the TCPGroupListener from the TCPGroup
 func (tg *TCPGroup) CloseListener(ln *TCPGroupListener) {
+	// lock order: controller first, then group (same as TCPGroupCtl.Listen)
+	tg.ctl.mu.Lock()
+	defer tg.ctl.mu.Unlock()
 	tg.mu.Lock()
 	defer tg.mu.Unlock()
 	for i, tmpLn := range tg.lns {
@@ -174,7 +179,7 @@ func (tg *TCPGroup) CloseListener(ln *TCPGroupListener) {
 		close(tg.acceptCh)
 		tg.tcpLn.Close()
 		tg.ctl.portManager.Release(tg.realPort)
-		tg.ctl.RemoveGroup(tg.group)
+		delete(tg.ctl.groups, tg.group)
 	}
 }
 
